@@ -153,6 +153,11 @@ pub fn gen(seed: u64, thorough: bool) {
     for s in fixed {
         emit(s.as_bytes());
     }
+    // the overflow boundary at every digit count of the mantissa (finite / not finite: every path to the float back end has
+    // to notice by itself)
+    for t in overflow_boundary() {
+        emit(&t);
+    }
     // zero-padded / huge-exponent literals whose value is moderate
     for (zeros, exp) in [(10usize, 11i64), (1000, 1001), (5000, 5001), (10000, 10001), (20000, 20001)] {
         let mut t = b"0.".to_vec();
